@@ -182,6 +182,14 @@ def replay(pid, path):
             if spec["k"] < ref["n"]:
                 lines.append(CC.crash_case((spec["layout"], spec["prior"], spec.get("names", "plain"), spec["k"], spec["mode"], ref)))
         module = "MhlCommitTrace"
+    elif kind == "bigman":
+        from . import commitcheck as CC
+        b = CC.big_manifest_case((4200, spec["cmd"]))
+        bad = b["exit"] != 31 or bool(b["delta"])
+        print("big manifest (%d bytes, byte %d changed): %s exit=%s delta=%s P_C05_Refuse=%s" % (b["size"], b["pos"], b["cmd"], b["exit"], b["delta"], not bad))
+        if bad:
+            print("VIOLATION property=%s replay=%s clause=P_C05_Refuse" % (pid, path))
+        return 1 if bad else 0
     elif kind == "tamper":
         from . import commitcheck as CC
         lines = [ln for ln in CC.tamper_case((0, {"st": spec["state"]}, spec["edit"], "plain", 0)) if ln["cmd"] == spec["cmd"] and ln["R"] == spec["R"]]
@@ -244,6 +252,7 @@ def c04(tier, seed):
             dict(scope="fmt3", mode="exhaustive", maxops=4, limit=3500, invariants=inv, props=["Act_C04_FirstRefStable"]),
             dict(scope="fmt3n", mode="simulate", num=300, depth=5, mc=True, mc_maxgens=2, invariants=inv),
             dict(scope="fmt3", mode="simulate", num=40, depth=9, maxops=9, maxgens=6, limit=700, mc=False, tag="w"),
+            dict(scope="deep", mode="simulate", num=30, depth=8, maxops=12, maxgens=30, limit=300, mc=False),
         ]
     else:
         plans = [
@@ -380,6 +389,7 @@ generic(
         dict(scope="nest", mode="simulate", num=60, depth=8, limit=400, mc_maxgens=1, invariants=INV_C03),
         dict(scope="ign", mode="simulate", num=40, depth=7, limit=300, mc=False),
         dict(scope="ignsf", mode="simulate", num=40, depth=8, limit=300, mc=False),
+        dict(scope="big", mode="exhaustive", maxops=4, limit=200, mc=False),
         dict(scope="deep", mode="simulate", num=30, depth=8, maxops=12, maxgens=30, limit=400, mc=False),
         dict(scope="tiny", mode="exhaustive", maxops=4, limit=800, mc_maxgens=2, invariants=INV_C03),
     ],
@@ -479,7 +489,8 @@ generic(
     "C19", "model_checking",
     quick=[dict(scope="inf", mode="simulate", num=120, depth=10, limit=900, mc_maxgens=2, invariants=INV_C19),
            dict(scope="inf", mode="simulate", num=40, depth=9, limit=300, mc=False, seed_offset=3, tag="l",
-                variants=[{"names": "plain", "location": "link_parent"}, {"names": "mixed", "location": "link_parent", "sfspell": "dotseg"}])],
+                variants=[{"names": "plain", "location": "link_parent"}, {"names": "mixed", "location": "link_parent", "sfspell": "dotseg"},
+                          {"names": "plain", "clockstep": -86400}])],      # the clock is set back a day between runs: later generations carry earlier dates
     thorough=[dict(scope="inf", mode="simulate", num=1500, depth=12, mc_maxgens=3, invariants=INV_C19),
               dict(scope="cmds", mode="simulate", num=300, depth=10, mc=False)],
     pclauses=["P_C19_Info", "P_C19_Dates", "P_C19_InfoSF"],
@@ -753,6 +764,17 @@ def c05(tier, seed):
                     ln["cmd"], ln["R"], ln["edit"], ln["exit"], v.get("expected"), ln["exc"],
                     json.dumps([h for h in ln["st"] if h["chain"] != "ok" or any(m != "ok" for m in h["mans"])]), json.dumps(ln["delta"][:3])),
                     {"kind": "tamper", "state": ln["st"], "edit": ln["edit"], "cmd": ln["cmd"], "R": ln["R"]}, ln["i"])
+    # a manifest longer than the hasher's read chunk, edited behind the first MiB
+    with Pool(3) as pool:
+        big = pool.map(CC.big_manifest_case, [(4200, c) for c in (("verify", "create", "info") if tier == "thorough" else ("verify", "create"))])
+    for b in big:
+        counts["P_C05_Refuse"] += 1
+        if b["size"] <= 2 ** 20 or b["pos"] <= 2 ** 20 or b["create0"] != 0:
+            out.machinery.append("big manifest case not built as intended: %s" % json.dumps(b))
+        elif b["exit"] != 31 or b["delta"]:
+            out.violation("P_C05_Refuse", "manifest of %d bytes, byte %d changed: %s exits %s (expected 31) delta=%s" % (b["size"], b["pos"], b["cmd"], b["exit"], b["delta"]),
+                          {"kind": "bigman", "cmd": b["cmd"]}, 0)
+    out.coverage["big_manifest_cases"] = big
     out.coverage["evaluations"] = len(verdicts)
     out.coverage["traces_validated_against_impl"] = len(cases)
     out.coverage["distinct_nontrivial"] = len(distinct)
